@@ -175,7 +175,7 @@ func main() {
 		OpNames:  map[int64]string{1: "connect", 2: "disconnect", 3: "inbound", 4: "probe"},
 		NewImpl:  newImpl,
 		Gen:      gen,
-		Count:    map[string]int{"quick": 700, "thorough": 20000},
+		Count:    map[string]int{"quick": 1400, "thorough": 30000},
 		Extra:    extra,
 	})
 }
